@@ -250,6 +250,10 @@ func (c *FnCtx) returnAnchor(in *ssa.Return, env *Env) {
 		for _, p := range c.fn.Params {
 			pe.names["entry_"+p.Name()] = c.vals[p]
 		}
+		if a.Possible {
+			c.cover(fmt.Sprintf("cover:possible:%s:%d", key, i+1), and(c.reach, c.trClause(pe, a.Clause)))
+			continue
+		}
 		c.checkClause(fmt.Sprintf("assert:%s:%d", key, i+1), "assert at "+key+": "+a.Text, c.reach, pe, a.Clause)
 	}
 }
